@@ -187,8 +187,12 @@ def gen_prior(rng, src, dst):
                             with open(p, "r+b") as f:
                                 f.write(bytes([data[0] ^ 1]))
                             os.utime(p, ns=(st.st_mtime_ns - 5_000_000_000, st.st_mtime_ns - 5_000_000_000))  # same size, older mtime
-                    elif k < 0.8:
+                    elif k < 0.7:
                         os.chmod(p, 0o600 if stat.S_IMODE(os.lstat(p).st_mode) != 0o600 else 0o644)
+                    elif k < 0.85:
+                        # the right bytes already, only the timestamp differs (e.g. restored from a backup)
+                        st = os.lstat(p)
+                        os.utime(p, ns=(st.st_mtime_ns + 7_000_000_000, st.st_mtime_ns + 7_000_000_000))
                     else:
                         os.unlink(p)
             except OSError:
